@@ -39,18 +39,18 @@ Definition pbn_rel (size : Z) (pm : pmap) (g : list (list Packet)) (cons : list 
   | OutOfFuel => False
   end.
 
-Definition gen_next_loop (fuel : nat) (err : option gerr) (f1 : nat) (p : option Packet) (buf : list Z) (size : Z)
+Definition next_loop_is_generated_subject (fuel : nat) (err : option gerr) (f1 : nat) (p : option Packet) (buf : list Z) (size : Z)
   (k : rkind) (w : mworld) : pbn_out :=
   packetBuffer_next_loop1 mworld rkind (read_full_m wr) (parse_packet_m err_of) fuel err f1 p buf size k gsk w.
 
 Lemma next_loop_is_generated size pm g : 0 < size -> forall fuel r cons err0 f1 buf kd,
   rest_len r -> Z.of_nat (List.length buf) = size ->
   (Z.to_nat ((r_len r - r_pos r) / size) < fuel)%nat ->
-  pbn_rel size pm g cons (gen_next_loop (S fuel) err0 f1 None buf size kd (mk_mworld r pm g cons))
+  pbn_rel size pm g cons (next_loop_is_generated_subject (S fuel) err0 f1 None buf size kd (mk_mworld r pm g cons))
           (pb_next fuel skip size r).
 Proof.
   intros Hsize. induction fuel as [|k IH]; intros r cons err0 f1 buf kd Hwf Hbuf Hfuel; [lia|].
-  unfold gen_next_loop. cbn [pb_next]. remember (S k) as k1 eqn:Ek1.
+  unfold next_loop_is_generated_subject. cbn [pb_next]. remember (S k) as k1 eqn:Ek1.
   cbn [packetBuffer_next_loop1 is_some negb].
   unfold read_full_m at 1. cbn [mw_reader]. rewrite Hbuf.
   destruct (read_full r size) as [[bs e] r'] eqn:Hrf.
@@ -91,7 +91,7 @@ Proof.
         { rewrite Hlen', Hpos'. replace (r_len r - (r_pos r + size)) with ((r_len r - r_pos r) + (-1) * size) by lia.
           rewrite Z.div_add by lia.
           assert (0 < (r_len r - r_pos r) / size) by (apply Z.div_str_pos; lia). lia. }
-        specialize (IH Hk). unfold gen_next_loop in IH. subst k1.
+        specialize (IH Hk). unfold next_loop_is_generated_subject in IH. subst k1.
         destruct (pb_next k skip size r') as [[x r''] l].
         destruct (packetBuffer_next_loop1 _ _ _ _ (S k) _ _ _ _ _ _ _ _) as [[[[buf' p] err] w']| |];
           cbn [pbn_rel fst snd] in *; [|exact IH|exact IH].
@@ -101,14 +101,14 @@ Proof.
     + reflexivity.
 Qed.
 
-Definition gen_next (size : Z) (kd : rkind) (buf : list Z) (fuel : nat) (w : mworld) : pbn_out :=
+Definition pb_next_is_generated_subject (size : Z) (kd : rkind) (buf : list Z) (fuel : nat) (w : mworld) : pbn_out :=
   packetBuffer_next mworld rkind (read_full_m wr) (parse_packet_m err_of) size gsk kd buf fuel w.
 
 Theorem pb_next_is_generated size r pm g cons kd buf : size <> 0 -> rest_len r ->
-  pbn_rel size pm g cons (gen_next size kd buf (S (packets_left r size)) (mk_mworld r pm g cons))
+  pbn_rel size pm g cons (pb_next_is_generated_subject size kd buf (S (packets_left r size)) (mk_mworld r pm g cons))
           (packet_buffer_next skip (mk_pbuf size) r).
 Proof.
-  intros Hnz Hwf. unfold gen_next, packetBuffer_next, packet_buffer_next. cbn [pb_size].
+  intros Hnz Hwf. unfold pb_next_is_generated_subject, packetBuffer_next, packet_buffer_next. cbn [pb_size].
   destruct (size <? 0) eqn:Eneg.
   - (* make([]byte, size) panics *)
     replace (negb (Z.of_nat (List.length buf) =? size)) with true by lia.
